@@ -296,6 +296,8 @@ pub enum Op {
     Search(SearchSpec),
     Timeline(TimelineSpec),
     SearchVec { q: Vec<f32>, k: usize },
+    /// engine 2 (C05): an operation on the embedded WAL itself
+    Wal(crate::walsim::WalOp),
 }
 
 impl Op {
@@ -324,6 +326,7 @@ impl Op {
             Op::Search(_) => "search",
             Op::Timeline(_) => "timeline",
             Op::SearchVec { .. } => "search_vec",
+            Op::Wal(_) => "wal",
         }
     }
     pub fn is_mutation(&self) -> bool {
